@@ -107,7 +107,7 @@ func c05Generated(t *fw.T) {
 }
 
 var c05LiteralSnippets = []string{
-	"x = `line1\nline2 ${a}\n  indented`", "x = 'a\\\nb'", "x = 'a\\\r\nb'", "x = \"a\\\rb\"", "x = 'a\\\u2028b'", "class A { f = 'a\\\r\nb' }", "switch (x) { case 'a\\\r\nb': }", "x = \"c\\\n  d\"", "/*! bang\n   comment */", "x = /ab+c[/\\]]/gi", "x = 1..toString()", "x = 1.5.toFixed()", "x = 1e3.valueOf()",
+	"x = `line1\nline2 ${a}\n  indented`", "x = 'a\\\nb'", "x = 'a\\\r\nb'", "x = \"a\\\rb\"", "x = 'a\\\u2028b'", "class A { f = 'a\\\r\nb' }", "switch (x) { case 'a\\\r\nb': }", "x = \"c\\\n  d\"", "/*! bang\n   comment */", "x = /ab+c[/\\]]/gi", "x = 1..toString()", "x = 1?.k", "x = 1.5?.z", "x = 1e3?.toFixed(2)", "x = 1n?.k", "y = .5?.p", "x = 1.5.toFixed()", "x = 1e3.valueOf()",
 	"x = 0x1F.toString()", "x = 1_0 .y", "x = 1n", "x = .5 .z", "x = 5 .w", "x = `a${`b${c}\n`}\n`", "x = a\n/*! second\n\tbang */\ny = b", "x = tag`raw\\n${y}\n`", "x = 10 .toString(2)", "x = 1. + 2", "x = 2 ** -1",
 	"x = 'it\\'s' + \"q\\\"\"", "x = a ? `\n` : '\\\n'", "class A { m() { return `x\n${1}\ny` } }", "{ { { x = `deep\nnested` } } }", "if (a) { while (b) { x = 'a\\\nb' } }",
 }
